@@ -21,17 +21,18 @@ type verRef struct {
 }
 
 type vHist struct {
-	c       *Ctx
-	r       *Runner
-	bucket  string
-	status  string // "N", "E", "S"
-	vers    []verRef
-	maxID   int
-	d5Keys  map[string]bool // keys hit by a write while Suspended after having had Enabled-born versions
-	bornAny map[string]bool
-	trace   []string
-	dead    bool
-	prop    string
+	c            *Ctx
+	r            *Runner
+	bucket       string
+	status       string // "N", "E", "S"
+	vers         []verRef
+	maxID        int
+	d5Keys       map[string]bool // keys hit by a write while Suspended after having had Enabled-born versions
+	bornAny      map[string]bool
+	trace        []string
+	dead         bool
+	walkDiverged bool // a page of a versions walk differed from the model only
+	prop         string
 	// after a model-only mismatch the model is no longer consulted for this history; the
 	// specification still is (the failing input may only show a few operations later)
 	modelOff bool
@@ -543,6 +544,7 @@ func (h *vHist) listv(q VerListReq, finger string) VerListObs {
 		return lo
 	}
 	before := h.c.NMism
+	beforeSpec := h.c.NSpecMism
 	model, spec, err := h.c.D.Ask(line)
 	if err != nil {
 		panic(err)
@@ -594,7 +596,13 @@ func (h *vHist) listv(q VerListReq, finger string) VerListObs {
 			Model: model, Spec: "a truncated page supplies NextKeyMarker and NextVersionIdMarker", Finger: "c13:truncated-without-markers"})
 	}
 	if h.c.NMism > before {
-		h.dead = true
+		if finger == "walk-page" && h.c.NSpecMism == beforeSpec {
+			// only the model differs: the walk goes on along the implementation's markers so that the
+			// partition specification still judges it; the history ends after the walk
+			h.walkDiverged = true
+		} else {
+			h.dead = true
+		}
 	}
 	return lo
 }
@@ -656,6 +664,9 @@ func (h *vHist) walkv(q VerListReq, full VerListObs) {
 		h.dead = true
 	}
 	h.c.hist(fmt.Sprintf("versions-walk:pages=%d", min(pages, 6)))
+	if h.walkDiverged {
+		h.dead = true
+	}
 }
 
 func nullIds(spec string) string {
